@@ -44,8 +44,8 @@ package message
 //@ view viewAt(m, i) = bufAt(m.buffer, i)
 
 //@ assignset msgBuf = m.buffer.buf, m.buffer.off, m.buffer.lastRead, elems(m.buffer.buf)
-//@ assignset msgRead = m.isEOM, m.finished, @msgBuf, @ifaceRead, ifaceobj(m.stream, "*stream.Stream")
-//@ assignset msgWrite = @msgBuf, @ifaceWrite, ifaceobj(m.stream, "*stream.Stream")
+//@ assignset msgRead = m.isEOM, m.finished, bufConsumed, @msgBuf, @ifaceRead, ifaceobj(m.stream, "*stream.Stream")
+//@ assignset msgWrite = bufConsumed, @msgBuf, @ifaceWrite, ifaceobj(m.stream, "*stream.Stream")
 
 //@ func (*Message).ensureData
 //@   props C01 C02 C13 C14
@@ -57,12 +57,14 @@ package message
 //@   loop 1 invariant idle: old(viewLen(m)) >= needed || old(m.isEOM) ==> rdTotal == old(rdTotal) && viewLen(m) == old(viewLen(m)) && m.isEOM == old(m.isEOM)
 //@   loop 1 invariant buf_own: ref(m.buffer.buf) == old(ref(m.buffer.buf)) || fresh(m.buffer.buf)
 //@   loop 1 invariant io_strict: rdTotal == old(rdTotal) ==> viewLen(m) == old(viewLen(m))
+//@   loop 1 invariant consumes_nothing: bufConsumed == old(bufConsumed)
 //@   ensures enough: err == nil ==> viewLen(m) >= needed
 //@   ensures view_prefix: [C14 C01] forall i :: 0 <= i && i < old(viewLen(m)) ==> viewAt(m, i) == old(viewAt(m, i))
 //@   ensures no_io_if_buffered: [C14] old(viewLen(m)) >= needed || old(m.isEOM) ==> rdTotal == old(rdTotal) && viewLen(m) == old(viewLen(m))
 //@   ensures buffered_ok: old(viewLen(m)) >= needed ==> err == nil
 //@   ensures grows_only: viewLen(m) >= old(viewLen(m)) && rdTotal >= old(rdTotal) && openOKCount >= old(openOKCount)
 //@   ensures io_strict: [C14] rdTotal == old(rdTotal) ==> viewLen(m) == old(viewLen(m))
+//@   ensures consumes_nothing: [C14 C01] bufConsumed == old(bufConsumed)
 //@   ensures proportional: [C13] viewLen(m) - old(viewLen(m)) <= rdTotal - old(rdTotal)
 //@   ensures eof_means_eom: [C02] err == io.EOF ==> m.isEOM && viewLen(m) < needed
 //@   ensures inv_kept: msgInv(m) && m.buffer == old(m.buffer) && m.stream == old(m.stream)
@@ -101,6 +103,7 @@ package message
 //@   assigns @msgRead
 //@   ensures value: [C14] err == nil && old(viewLen(m)) >= 1 ==> result == old(viewAt(m, 0)) && viewLen(m) == old(viewLen(m)) - 1 && rdTotal == old(rdTotal)
 //@   ensures rest: [C14] err == nil && old(viewLen(m)) >= 1 ==> forall i :: 0 <= i && i < viewLen(m) ==> viewAt(m, i) == old(viewAt(m, i + 1))
+//@   ensures exact1: [C14] bufConsumed == old(bufConsumed) + ite(err == nil, 1, 0)
 //@   ensures inv_kept: msgInv(m)
 //@   ensures buf_own: ref(m.buffer.buf) == old(ref(m.buffer.buf)) || fresh(m.buffer.buf)
 
@@ -112,6 +115,7 @@ package message
 //@   ensures rest: [C14] err == nil && old(viewLen(m)) >= 8 ==> forall i :: 0 <= i && i < viewLen(m) ==> viewAt(m, i) == old(viewAt(m, i + 8))
 //@   ensures consumes8: [C13] err == nil ==> viewLen(m) - old(viewLen(m)) + 8 <= rdTotal - old(rdTotal)
 //@   ensures at_most8: [C13] viewLen(m) >= old(viewLen(m)) - 8
+//@   ensures exact8: [C14] bufConsumed == old(bufConsumed) + ite(err == nil, 8, 0)
 //@   ensures inv_kept: msgInv(m) && m.buffer == old(m.buffer) && m.stream == old(m.stream)
 //@   ensures buf_own: ref(m.buffer.buf) == old(ref(m.buffer.buf)) || fresh(m.buffer.buf)
 
@@ -119,9 +123,11 @@ package message
 //@   props C14 C13
 //@   requires inv: msgInv(m)
 //@   assigns @msgRead
-//@   ensures value: [C14] err == nil && old(viewLen(m)) >= 8 ==> result == int32(s64(old(viewBE64(m, 0)))) && viewLen(m) == old(viewLen(m)) - 8
+//@   ensures value: [C14] err == nil && old(viewLen(m)) >= 8 ==> result == int32(s64(old(viewBE64(m, 0)))) && viewLen(m) == old(viewLen(m)) - 8 && rdTotal == old(rdTotal)
+//@   ensures rest: [C14] err == nil && old(viewLen(m)) >= 8 ==> forall i :: 0 <= i && i < viewLen(m) ==> viewAt(m, i) == old(viewAt(m, i + 8))
 //@   ensures consumes8: [C13] err == nil ==> viewLen(m) - old(viewLen(m)) + 8 <= rdTotal - old(rdTotal)
 //@   ensures at_most8: [C13] viewLen(m) >= old(viewLen(m)) - 8
+//@   ensures exact8: [C14] bufConsumed == old(bufConsumed) + ite(err == nil, 8, 0)
 //@   ensures inv_kept: msgInv(m) && m.buffer == old(m.buffer) && m.stream == old(m.stream)
 //@   ensures buf_own: ref(m.buffer.buf) == old(ref(m.buffer.buf)) || fresh(m.buffer.buf)
 
@@ -169,6 +175,7 @@ package message
 //@   assigns @msgWrite
 //@   let base = ite(old(viewLen(m)) + 8 > 16384, 0, old(viewLen(m)))
 //@   ensures layout: err == nil ==> viewLen(m) == base + 8 && viewBE64(m, base) == value % 18446744073709551616
+//@   ensures kept: err == nil && old(viewLen(m)) + 8 <= 16384 ==> wrCount == old(wrCount) && forall i :: 0 <= i && i < old(viewLen(m)) ==> viewAt(m, i) == old(viewAt(m, i))
 //@   ensures inv_kept: encInv(m) && m.buffer == old(m.buffer) && m.stream == old(m.stream)
 //@   ensures buf_own: ref(m.buffer.buf) == old(ref(m.buffer.buf)) || fresh(m.buffer.buf)
 
@@ -301,3 +308,43 @@ package message
 //@   assigns @msgWrite
 //@   ensures inv_kept: [C01] encInv(m)
 //@   ensures buf_own: ref(m.buffer.buf) == old(ref(m.buffer.buf)) || fresh(m.buffer.buf)
+
+// ---- doubles (C14): frexp/ldexp over the reals; see /verif/specs/math.spec for what is idealised ---------------
+//@ func (*Message).PutDouble
+//@   props C14
+//@   requires inv: encInv(m)
+//@   assigns @msgWrite
+//@   let b1 = ite(old(viewLen(m)) + 8 > 16384, 0, old(viewLen(m)))
+//@   let b2 = ite(b1 + 16 > 16384, 0, b1 + 8)
+//@   let fi = int32(s64(viewBE64(m, b2 - 8)))
+//@   let ex = int32(s64(viewBE64(m, b2)))
+//@   ensures two_items: err == nil ==> viewLen(m) == b2 + 8
+//@   ensures items: err == nil && b2 == b1 + 8 ==> fi == trunc(frexpFrac(value) * real(2147483647)) && ex == frexpExp(value) && -1074 <= ex && ex <= 1024
+//@   ensures inv_kept: encInv(m)
+
+//@ func (*Message).GetDouble (m, ctx) (result, err)
+//@   props C14 C13
+//@   requires inv: msgInv(m)
+//@   assigns @msgRead
+//@   let fi = int32(s64(old(viewBE64(m, 0))))
+//@   let ex = int32(s64(old(viewBE64(m, 8))))
+//@   ensures value: err == nil && old(viewLen(m)) >= 16 ==> result == ldexpR(real(fi) / real(2147483647), ex) && viewLen(m) == old(viewLen(m)) - 16
+//@   ensures exact16: bufConsumed == old(bufConsumed) + ite(err == nil, 16, 0) || (err != nil && bufConsumed == old(bufConsumed) + 8)
+//@   ensures inv_kept: msgInv(m)
+
+// decode(encode(v)) is within the format's 31-bit precision. With v = f * 2^e (Frexp, |f| < 1), fi = trunc(f * F) (PutDouble#items)
+// and decode = fi / F * 2^e (GetDouble#value with Ldexp(x, e) = x * 2^e):  |decode - v| <= 2^e / F.  p stands for 2^e > 0.
+//@ lemma double_precision
+//@   props C14
+//@   var fi int f real p real
+//@   hyp p > 0 && real(-1) < f && f < 1 && fi == trunc(f * real(2147483647))
+//@   concl abs(real(fi) / real(2147483647) * p - f * p) <= p / real(2147483647)
+//@ end
+
+// typed integers: decode(encode(v)) = v for the 8-byte big-endian two's complement layout
+//@ lemma int_inverse
+//@   props C14
+//@   var v int u int
+//@   hyp -9223372036854775808 <= v && v <= 9223372036854775807 && u == v % 18446744073709551616
+//@   concl s64(u) == v
+//@ end
